@@ -5,8 +5,8 @@
    What is modelled, following the code as it is:
    - Cluster.create, _update_job_status (the three loops with their assertions, the final
      blocked_by.clear() loop, both serialisations), _are_all_jobs_complete, _mark_complete,
-     _mark_canceled, prepare_for_resubmission (as repaired by /repo commit ce6353a: counters taken from
-     the job table), _promote_to_submitter, _demote_from_submitter,
+     _mark_canceled, prepare_for_resubmission (as repaired by /repo commits ce6353a: counters taken from
+     the job table, and 34e0409: is_canceled cleared), _promote_to_submitter, _demote_from_submitter,
      _complete_hpc_job_id, get_status_summary, and the version logic of _serialize /
      _serialize_jobs.
    - Python exceptions are explicit results: AssertionError -> EAssert, KeyError (status_lookup[name]
@@ -33,7 +33,13 @@
    `find_job`; updates go to every job carrying the name.
    `st_rows` is a ghost component: the names that have a row in the processed results file
    (results.csv); rounds add the rows they collected, resubmission removes the rows of rerun jobs
-   (cli/resubmit_jobs.py::_reset_results).  It is not written by Cluster. *)
+   (cli/resubmit_jobs.py::_reset_results).  It is not written by Cluster.
+
+   Not modelled: the version checks (_check_config_version / _check_job_status_version raising
+   *VersionMismatch): there is one live Cluster object at a time here and its versions equal the version
+   files (stale handles and concurrent writers are C10); the submitter's host name (a bool: set or
+   not); serialize_submission_groups; the lock itself (every method body is one lock hold, both files
+   are written inside it, observations happen between operations). *)
 From Coq Require Import List ZArith NArith Bool.
 From Jade Require Import Base.
 Import ListNotations.
@@ -260,7 +266,7 @@ Definition resubmit_with (counters : list job -> list N -> Z * Z)
                              else j) jobs in
   let '(nsub, ndone) := counters jobs rerun in
   let c1 := {| c_num := c_num c; c_submitted := nsub; c_completed := ndone;
-               c_complete := false; c_canceled := c_canceled c; c_submitter := c_submitter c;
+               c_complete := false; c_canceled := false; c_submitter := c_submitter c;
                c_version := c_version c |} in
   let '(c', h') := serialize_cfg c1 (st_hash s) in
   Ok {| st_cfg := c';
